@@ -7,20 +7,20 @@ target('c08', ['harness/c08_kernels.cpp'])
 def c08_jobs(tier):
     q = tier == 'quick'
     js = [job('kernels-plain-t1', 'c08', 'plain', threads=1, shards=6),
-          job('kernels-asan-t1', 'c08', 'asan', threads=1, shards=8, args=['--sub', 'product_random,product_block,misc,transpose_adjoint,pointwise_exhaustive,pointwise_random,spectral_radius'] if q else []),
-          job('kernels-plain-t4', 'c08', 'plain', threads=4, args=['--sub', 'product_random,product_block,misc,transpose_adjoint,pointwise_random,spectral_radius']),
-          job('kernels-plain-t8', 'c08', 'plain', threads=8, args=['--sub', 'product_random,product_block,misc,pointwise_random,spectral_radius']),
-          job('kernels-omp-t17', 'c08', 'plain-omp', threads=17, args=['--sub', 'product_random,product_block,misc,pointwise_random,spectral_radius'], exclusive=True),
-          job('kernels-tsan-t4', 'c08', 'tsan', threads=4, args=['--sub', 'product_random,product_block,misc,transpose_adjoint,pointwise_random,spectral_radius']),
+          job('kernels-asan-t1', 'c08', 'asan', threads=1, shards=8, args=['--sub', 'product_random,product_block,misc,transpose_adjoint,pointwise_exhaustive,pointwise_random,spectral_radius,spectral_radius_block'] if q else []),
+          job('kernels-plain-t4', 'c08', 'plain', threads=4, args=['--sub', 'product_random,product_block,misc,transpose_adjoint,pointwise_random,spectral_radius,spectral_radius_block']),
+          job('kernels-plain-t8', 'c08', 'plain', threads=8, args=['--sub', 'product_random,product_block,misc,pointwise_random,spectral_radius,spectral_radius_block']),
+          job('kernels-omp-t17', 'c08', 'plain-omp', threads=17, args=['--sub', 'product_random,product_block,misc,pointwise_random,spectral_radius,spectral_radius_block'], exclusive=True),
+          job('kernels-tsan-t4', 'c08', 'tsan', threads=4, args=['--sub', 'product_random,product_block,misc,transpose_adjoint,pointwise_random,spectral_radius,spectral_radius_block']),
           job('kernels-tsan-t17', 'c08', 'tsan', threads=17, args=['--sub', 'product_random,product_block,misc'], exclusive=True),
           # teams smaller than omp_get_max_threads(): thread limit below the configured count, and calls from inside an enclosing
           # parallel region (added after a seeded change that laid out a parallel prefix sum by omp_get_max_threads() was missed)
           job('kernels-plain-t8-limit3', 'c08', 'plain', threads=8, env={'OMP_THREAD_LIMIT': '3'}, args=['--sub', 'product_random,product_block,misc,transpose_adjoint,pointwise_random']),
           job('kernels-plain-t8-nested', 'c08', 'plain', threads=8, args=['--sub', 'product_random,product_block,misc,transpose_adjoint,pointwise_random', '--nested=1'])]
     if not q:
-        js += [job('kernels-plain-t2', 'c08', 'plain', threads=2, args=['--sub', 'product_random,product_block,misc,transpose_adjoint,pointwise_random,spectral_radius']),
-               job('kernels-omp-t24', 'c08', 'plain-omp', threads=24, args=['--sub', 'product_random,product_block,misc,pointwise_random,spectral_radius'], exclusive=True),
-               job('kernels-asan-t4', 'c08', 'asan', threads=4, shards=2, args=['--sub', 'product_random,product_block,misc,transpose_adjoint,pointwise_random,spectral_radius'])]
+        js += [job('kernels-plain-t2', 'c08', 'plain', threads=2, args=['--sub', 'product_random,product_block,misc,transpose_adjoint,pointwise_random,spectral_radius,spectral_radius_block']),
+               job('kernels-omp-t24', 'c08', 'plain-omp', threads=24, args=['--sub', 'product_random,product_block,misc,pointwise_random,spectral_radius,spectral_radius_block'], exclusive=True),
+               job('kernels-asan-t4', 'c08', 'asan', threads=4, shards=2, args=['--sub', 'product_random,product_block,misc,transpose_adjoint,pointwise_random,spectral_radius,spectral_radius_block'])]
     return js
 PROPS['C08'] = dict(
     level='exploration', jobs=c08_jobs,
